@@ -496,6 +496,41 @@ fn run_inner(ctx: &Ctx, dump_dir: &Path, torn_dir: &Path) -> i32 {
             Torn::Err => {}
             o => ctx.violation("missing-dir", &format!("reload_json on a missing directory: {:?}", o), json!({"kind": "missingdir"})),
         }
+        // the same with a valid dump of OTHER parameters sitting in the process's working directory, in the parent of the
+        // missing directory and in the filesystem root of the scratch area: a reload must never pick up another file
+        {
+            let cwd_dir = torn_dir.join("as-cwd");
+            let _ = std::fs::create_dir_all(&cwd_dir);
+            let other = P { b: 1.5, m: 77, a: 3.25, q: 99 };
+            let _ = SetSketchParams::new(other.b, other.m, other.a, other.q).dump_json(&cwd_dir);
+            let _ = SetSketchParams::new(other.b, other.m, other.a, other.q).dump_json(torn_dir);
+            let old = std::env::current_dir();
+            if let (Ok(old), Ok(())) = (old, std::env::set_current_dir(&cwd_dir)) {
+                for (label, d) in [("absolute", nodir.clone()), ("relative", std::path::PathBuf::from("does-not-exist")), ("relative to a missing parent", std::path::PathBuf::from("no/such/dir"))] {
+                    env_cases += 1;
+                    match guarded_mut(|| SetSketchParams::reload_json(&d)) {
+                        Ok(Err(_)) => {}
+                        o => ctx.violation("missing-dir-other-file", &format!("reload_json on a missing directory ({} path {:?}) while a parameters.json of other parameters lies in the working directory: {:?}", label, d, o.map(|r| r.map(|p| (p.get_b(), p.get_m(), p.get_a(), p.get_q())).map_err(|e| e.to_string()))), json!({"kind": "missingdir-cwd"})),
+                    }
+                    // a dump into a missing directory must fail, and must not write anywhere else
+                    env_cases += 1;
+                    let before = std::fs::read(cwd_dir.join("parameters.json")).ok();
+                    let r = guarded_mut(|| SetSketchParams::new(short.b, short.m, short.a, short.q).dump_json(&d));
+                    let after = std::fs::read(cwd_dir.join("parameters.json")).ok();
+                    if before != after {
+                        ctx.violation("dump-missing-dir-wrote-elsewhere", &format!("dump_json into a missing directory ({} path {:?}) rewrote the parameters.json of the working directory", label, d), json!({"kind": "missingdir-cwd"}));
+                        let _ = SetSketchParams::new(other.b, other.m, other.a, other.q).dump_json(&cwd_dir);
+                    } else if let Ok(Ok(())) = r {
+                        if !d.join("parameters.json").exists() {
+                            ctx.violation("dump-missing-dir-ok", &format!("dump_json into a missing directory ({} path {:?}) returns Ok and no file exists there", label, d), json!({"kind": "missingdir-cwd"}));
+                        }
+                    }
+                }
+                let _ = std::env::set_current_dir(old);
+            }
+            let _ = std::fs::remove_file(torn_dir.join("parameters.json"));
+            let _ = std::fs::remove_dir_all(&cwd_dir);
+        }
         let asdir = torn_dir.join("parameters.json");
         let _ = std::fs::create_dir_all(&asdir);
         env_cases += 1;
